@@ -8,6 +8,7 @@ from pyvc import ops
 from pyvc.values import *
 from pyvc import libspec
 from contracts.common import *
+from contracts.c09_packing import retry_is
 from contracts.c10_server import (make_ctxt, client_ref, pool_inv, addr_of, pooled, live_fields, ADDR, SCCN, CONN_, NOTYET, DONE,
                                   one_event_for, no_client_holds)
 
@@ -342,6 +343,11 @@ class _:
             S.len(self.outgoing_messages) != S.len(old.self.outgoing_messages), server_key_clause(self, ghost)),
         'one-signed-hello-describing-this-session-is-queued': lambda E, old, self, events, ghost: S.implies(
             S.len(self.outgoing_messages) != S.len(old.self.outgoing_messages), queued_hello(E, old, self, events, ghost)),
+        # C11: one reply per received hello - the hello is queued with RetryMode.NONE, so it is sent once and never re-sent to an
+        # address that stays silent (the premise of the anti-amplification lemma in c11_entry)
+        'the-hello-is-sent-once-never-re-sent': lambda E, old, self: S.implies(
+            S.len(self.outgoing_messages) != S.len(old.self.outgoing_messages),
+            retry_is(E.elem(self.outgoing_messages, S.len(self.outgoing_messages) - 1).retry, 'NONE')),
     }
     may_raise = ['Exception']
 
